@@ -300,7 +300,7 @@ func (tdsChan *Channel) handleSpecialPackage(pkg Package) (bool, error) {
 					return false, fmt.Errorf("invalid new packet size %d: must be greater than %d and at most %d",
 						packSize, PacketHeaderSize, math.MaxUint16)
 				}
-				tdsChan.tdsConn.packetSize = packSize
+				tdsChan.tdsConn.packetSize.Store(int64(packSize))
 			}
 
 			tdsChan.callEnvChangeHooks(member.Type, member.OldValue, member.NewValue)
